@@ -92,7 +92,7 @@ static void on_terminate() {
 // stopped before it eats the machine.
 static volatile int g_ticks = 0;
 constexpr int kTickMs = 100;
-constexpr int kCpuLimitTicks = 80;         // 8 s of CPU for a single case (inputs are <= 1 MB)
+constexpr int kCpuLimitTicks = 30;         // 3 s of CPU for a single case (inputs are <= 1 MB)
 constexpr long kRssLimitPages = 393216;     // 1.5 GB
 static void on_tick(int) {
   Blackbox* b = blackbox();
